@@ -98,7 +98,11 @@ def check_forecast_common(ctx, fore, base, hist, edges):
     if not ok_type:
         ctx.violation("magnitudes_not_numeric", {"dtype": str(numpy.asarray(fore.magnitudes).dtype)})
     factor = apply_history(ctx, fore, base, hist)
-    data = numpy.asarray(fore.data, dtype=float)
+    od = call(lambda: numpy.asarray(fore.data, dtype=float))
+    if not od.ok:
+        ctx.unexpected(od, "data")
+        return False
+    data = od.value
     want = base * factor
     if data.shape != base.shape:
         ctx.violation("data_shape", {"got": list(data.shape), "want": list(base.shape)})
